@@ -70,12 +70,28 @@ class GhostHandle:
         self.gf.size = size
         return size
 
+    def write(self, data):
+        self.write_n(data.n if isinstance(data, SymBytes) else len(data))
+
     def write_n(self, n):
         pos = self.gf.size if 'a' in self.mode else self.pos
         self.gf.log.append(('write', pos, n))
         end = pos + n
         self.gf.size = sym.smax(self.gf.size, end)
         self.pos = end
+
+
+class SymBytes:
+    """a byte string of symbolic length (only its length matters to the abstract file)"""
+
+    def __init__(self, n):
+        self.n = n
+
+    def __add__(self, o):
+        return SymBytes(self.n + (o.n if isinstance(o, SymBytes) else len(o)))
+
+    def __radd__(self, o):
+        return SymBytes(self.n + len(o))
 
 
 class GArr(np.ndarray):
@@ -95,6 +111,9 @@ class SymField:
 
     def tofile(self, f):
         f.write_n(self.nbytes)
+
+    def tobytes(self, order='C'):
+        return SymBytes(self.nbytes)
 
 
 class NpShim:
@@ -119,6 +138,10 @@ class NpShim:
             return np.fromfile(f, dtype=dtype, count=count, offset=offset, **k)
         isz = np.dtype(dtype).itemsize
         pos = f.pos + offset
+        if not sym.is_sym(count) and int(count) == 1 and not bool(pos + isz <= f.gf.size):
+            # numpy.fromfile at (or within less than one item of) the end of the file returns an empty array
+            f.gf.log.append(('read_eof', pos, isz))
+            return np.zeros(0, dtype=dtype)
         f.gf.log.append(('read', pos, count * isz))
         f.pos = pos + count * isz
         if sym.is_sym(count):
@@ -140,6 +163,7 @@ def install_ghost(mod, gf):
 
     class Os:
         path = OsPath()
+        SEEK_SET, SEEK_CUR, SEEK_END = 0, 1, 2
 
     mod.os = Os()
     mod.np = NpShim()
@@ -155,14 +179,15 @@ class _FIOBase(Contract):
     assumptions = ("file-system contract (ghost): open/seek/truncate, numpy tofile/fromfile move exactly nbytes at the handle position, 'ab' handles write at end of file, os.path.getsize/isfile report the abstract state",
                    'int() of an exact integer quotient is the identity')
 
-    def mk_io(self, mk, partial=True):
+    def mk_io(self, mk, partial=True, nrec=None):
         import importlib
 
         mod = importlib.import_module('pySDC.helpers.fieldsIO')
         nItems = mk.int('nItems')
         mk.assume(nItems >= 1, 'nItems>=1')
-        nrec = mk.int('nRecords')
-        mk.assume(nrec >= 0, 'records>=0')
+        if nrec is None:
+            nrec = mk.int('nRecords')
+            mk.assume(nrec >= 0, 'records>=0')
         io = mod.Scalar(np.float64, 'ghost.pysdc')
         io.header = {'nVar': 1}  # header stays concrete; the record size is symbolic through nItems
         io.nItems = nItems
@@ -277,6 +302,38 @@ class ReadField(_FIOBase):
         yield 'canary:offset_without_header', seq(reads[0][1], sym.Ite(st.idx < 0, st.nrec + st.idx, st.idx) * st.R)
 
 
+class Times(_FIOBase):
+    """FieldsIO.times: exactly one time stamp per COMPLETE record, read at the record starts; the partial tail of an interrupted append is
+    never read and never reported (the number of records is enumerated, record size and tail length are symbolic)"""
+
+    name = 'FieldsIO.times'
+    target = (FIO, 'FieldsIO.times')
+
+    def instances(self, tier):
+        return [dict(nrec=n) for n in ((0, 1, 2, 3) if tier == 'quick' else (0, 1, 2, 3, 4, 5))]
+
+    def build(self, inst, mk):
+        st = self.mk_io(mk, nrec=inst['nrec'])
+        st.call = lambda: st.io.times
+        return st
+
+    def post(self, st, old, result, exc):
+        n = st.inst_nrec = st.nrec
+        yield 'returns_normally', exc is None
+        if exc is not None:
+            return
+        yield 'one_time_per_complete_record', len(result) == n
+        reads = [e for e in st.gf.log if e[0] == 'read']
+        yield 'one_read_per_complete_record', len(reads) == n
+        for i, e in enumerate(reads[:n]):
+            yield f'time_{i}_read_at_the_start_of_record_{i}', And(seq(e[1], st.H + i * st.R), e[2] == 8)
+        yield 'partial_tail_never_read', And(*[e[1] + e[2] <= st.H + n * st.R for e in reads]) if reads else True
+        yield 'no_writes', all(e[0] not in ('write', 'truncate') for e in st.gf.log)
+
+    def canary(self, st, old, result, exc):
+        yield 'canary:one_more_time_than_records', len(result) == st.nrec + 1
+
+
 class AddField(_FIOBase):
     """append-only; the appended record must become record number nFields_old -- also after an interrupted append left
     a partial tail (re-open-and-append clause of C16)"""
@@ -308,12 +365,15 @@ class AddField(_FIOBase):
         if exc is not None:
             return
         writes = [e for e in log if e[0] == 'write']
-        yield 'two_writes_time_then_field', len(writes) == 2
-        if len(writes) != 2:
+        # how many write calls are used is not specified: they have to fill exactly [w0, w0 + R) front to back
+        # (that the 8 time bytes come first and the field in C order is the bounded real-file layer's business)
+        yield 'at_least_one_write', len(writes) >= 1
+        if not writes:
             return
         w0 = st.H + st.nrec * st.R
         yield 'record_lands_at_index_nFields_old', seq(writes[0][1], w0)
-        yield 'time_is_8_bytes_field_follows', And(writes[0][2] == 8, seq(writes[1][1], w0 + 8), seq(writes[1][2], st.nItems * 8))
+        yield 'writes_are_contiguous', And(*[seq(writes[i + 1][1], writes[i][1] + writes[i][2]) for i in range(len(writes) - 1)]) if len(writes) > 1 else True
+        yield 'exactly_one_record_written', seq(sum(e[2] for e in writes), st.R)
         yield 'completed_records_untouched', And(*[e[1] >= w0 for e in writes] + [e[1] >= w0 for e in log if e[0] == 'truncate'])
         yield 'file_grows_by_one_record', seq(st.gf.size, w0 + st.R)
         yield 'not_opened_for_overwrite', all('w' not in e[1] for e in log if e[0] == 'open')
@@ -568,7 +628,12 @@ def bounded_roundtrip(tier, seed):
                     a = a + 1j * rng.randn(*shape)
                 return a.astype(dt)
 
-            recs = [(float(rng.randn()), rnd()) for _ in range(3)]
+            # the same logical values in three memory layouts: C order, a non-contiguous view, Fortran order
+            a0, a1, a2 = rnd(), rnd(), rnd()
+            big = np.zeros(tuple(2 * n for n in shape), dtype=dt)
+            view = big[tuple(slice(None, None, 2) for _ in shape)]
+            view[...] = a1
+            recs = [(float(rng.randn()), a0), (float(rng.randn()), view), (float(rng.randn()), np.asfortranarray(a2))]
             for t, u in recs[:2]:
                 io.addField(t, u)
             # overwrite protection
@@ -590,7 +655,7 @@ def bounded_roundtrip(tier, seed):
                 with open(fn, 'wb') as f:
                     f.write(after[:cut])
                 g = F.FieldsIO.fromFile(fn)
-                ok = g.nFields == 2 and type(g).__name__ == struct
+                ok = g.nFields == 2 and type(g).__name__ == struct and len(g.times) == 2 and g.times == [recs[0][0], recs[1][0]]
                 for i, (t, u) in enumerate(recs[:2]):
                     t2, u2 = g.readField(i)
                     ok = ok and t2 == t and u2.tobytes() == u.tobytes() and u2.shape == u.shape
@@ -618,10 +683,10 @@ def bounded_roundtrip(tier, seed):
     obs.append(dict(name='bounded:roundtrip_and_crash_points', status='proved' if not fails else 'refuted', backend='enumeration', seconds=0.0, kind='bounded', size=0,
                     model=dict(first_failures=fails[:5]) if fails else None, reason='', path=0, counted=False))
     return dict(contract='bounded:FieldsIO.real_files', prop='C16', inst={}, label='bounded', kind='bounded', obligations=obs, canaries=[], paths=1, status='ok',
-                bounded=dict(what='bit-exact round trip on real files with a crash after every byte of an append', bound=f'{len(cfgs)} (structure, dtype, shape) configurations, 3 records', cases=cases, failures=len(fails), distinct=uniq[:6]))
+                bounded=dict(what='bit-exact round trip on real files with a crash after every byte of an append', bound=f'{len(cfgs)} (structure, dtype, shape) configurations, 3 records in C order / as a non-contiguous view / in Fortran order', cases=cases, failures=len(fails), distinct=uniq[:6]))
 
 
-CONTRACTS = [NFields, FormatIndex, ReadField, AddField, Initialize, LocalBounds, BlockInit]
+CONTRACTS = [NFields, FormatIndex, ReadField, Times, AddField, Initialize, LocalBounds, BlockInit]
 EXTRAS = [lemma_partition, block_ranks_bijection, bounded_roundtrip]
 ASSUMPTIONS = ['numpy tofile/fromfile are inverse on raw bytes (validated only by the bounded real-file layer)']
 UNDECIDED = ['MPI branches of Rectilinear.addField/readField (mpi4py absent)', 'LogToFile hook (resume into an existing file) not under contract',
